@@ -158,7 +158,9 @@ class C16(PropBase):
                 if mkey(**key) in [mkey(**k) for k in stored[c]]:
                     continue  # write-once: fresh keys only
                 tok += 1
-                step.update(op="ctx_set", val=f"tok{tok}")
+                # mostly distinct tokens (every hit is attributable to one insert); sometimes a falsy
+                # value or None - a context is a mapping, and those are values like any other
+                step.update(op="ctx_set", val=f"tok{tok}" if rng.random() < 0.8 else rng.choice([None, 0, "", False, [], None]))
                 stored[c].append(key)
             elif kind == "getitem":
                 step.update(op="ctx_getitem")
